@@ -472,7 +472,11 @@ def clause_d(facts, rep):
                                 return 0x40000000
                             return None
                         base = 0x10000000
-                        _, _, mem, _ = Interp(f, facts, call_hook=hook).run({f.params[0]['id']: cnt}, {'buf_': base, 'top_': base + used, 'cap_': cap})
+                        try:
+                            _, _, mem, _ = Interp(f, facts, call_hook=hook).run({f.params[0]['id']: cnt}, {'buf_': base, 'top_': base + used, 'cap_': cap})
+                        except UndefinedBehaviour as ex:
+                            bad = 'used=%d cap=%d Grow(%d): undefined behaviour: %s' % (used, cap, cnt, ex)
+                            break
                         block = allocs[-1] if allocs else ((cap + 7) & ~7)
                         if block < used + cnt or mem['top_'] - mem['buf_'] != used or mem['cap_'] > block:
                             bad = 'used=%d cap=%d Grow(%d): block of %d bytes, contents at +%d, recorded capacity %d' % (used, cap, cnt, block, mem['top_'] - mem['buf_'], mem['cap_'])
@@ -481,7 +485,7 @@ def clause_d(facts, rep):
                         break
                 if bad:
                     break
-        except (Unsupported, UndefinedBehaviour) as ex:
+        except Unsupported as ex:
             raise AnalysisBroken('C06.d: Stack::Grow not evaluable: %s' % ex)
         rep.check(bad is None, 'E4.grow-contract', f.qn, 'after Grow(cnt) at least cnt bytes are free behind top_ (%d states evaluated)' % cnt_, f.loc, bad or '', facts.config)
 
